@@ -131,6 +131,8 @@ type State struct {
 	sharing bool
 	locks   int
 	syncMaps map[int][]MapEntry
+	atomicW  map[string]bool // shared cells written atomically
+	plainR   map[string]bool // shared cells read non-atomically
 	stubs    []stubRec
 	sprintfs []sprintfRec
 }
@@ -165,6 +167,15 @@ func (st *State) clone() *State {
 	n.snaps = append([]snapRec(nil), st.snaps...)
 	n.poolPolicy, n.sharing, n.locks = st.poolPolicy, st.sharing, st.locks
 	n.stubs = append([]stubRec(nil), st.stubs...)
+	if st.atomicW != nil || st.plainR != nil {
+		n.atomicW, n.plainR = map[string]bool{}, map[string]bool{}
+		for k := range st.atomicW {
+			n.atomicW[k] = true
+		}
+		for k := range st.plainR {
+			n.plainR[k] = true
+		}
+	}
 	n.sprintfs = append([]sprintfRec(nil), st.sprintfs...)
 	if st.syncMaps != nil {
 		n.syncMaps = map[int][]MapEntry{}
@@ -280,6 +291,9 @@ func boolToBV8(b *Term) *Term { return Ite(b, Const(8, 1), Const(8, 0)) }
 func bv8ToBool(v *Term) *Term { return Not(Eq(v, Const(8, 0))) }
 
 func (e *Engine) load(st *State, p PtrV, t types.Type) Value {
+	if st.sharing && st.shared[p.Obj] && st.locks == 0 {
+		e.noteSharedAccess(st, p, e.inAtomic, false)
+	}
 	o := e.obj(st, p.Obj)
 	switch o.Kind {
 	case OArr:
@@ -1130,9 +1144,15 @@ func (e *Engine) step(st *State, f *Frame, in ssa.Instruction) []*State {
 	case *ssa.Lookup:
 		f.env[x] = e.lookup(st, f, x)
 	case *ssa.Range:
+		if sv, isStr := e.val(st, f, x.X).(StringV); isStr {
+			// range over a string: the iterator remembers the string and a position
+			id := e.newObj(st, &Obj{Kind: OCell, Val: StructV{Fields: []Value{sv, c64(0)}}, Name: "striter"})
+			f.env[x] = PtrV{Obj: id}
+			break
+		}
 		mv, ok := e.val(st, f, x.X).(MapV)
 		if !ok {
-			panic("range over string unsupported in prototype")
+			panic("range over this operand type is unsupported")
 		}
 		var ents []MapEntry
 		if mv.Obj != 0 {
@@ -1142,6 +1162,27 @@ func (e *Engine) step(st *State, f *Frame, in ssa.Instruction) []*State {
 		f.env[x] = PtrV{Obj: id}
 	case *ssa.Next:
 		it := e.val(st, f, x.Iter).(PtrV)
+		if x.IsString {
+			o := e.mutObj(st, it.Obj)
+			sv := o.Val.(StructV).Fields[0].(StringV)
+			pos := o.Val.(StructV).Fields[1].(*Term)
+			if !sv.Len.IsConst() || !pos.IsConst() {
+				panic("range over a string of symbolic length is unsupported")
+			}
+			if pos.C >= sv.Len.C {
+				f.env[x] = TupleV{False(), c64(0), Const(32, 0)}
+				break
+			}
+			b := e.obj(st, sv.Obj).Arr.Read(BinBV("bvadd", sv.Off, pos))
+			// model restricted to ASCII text: one byte is one rune
+			e.assume(st, Cmp("bvult", b, Const(8, 0x80)))
+			if e.assumeTexts != nil {
+				e.assumeTexts["engine: range over string - bytes restricted to ASCII (< 0x80), one byte per rune"] = true
+			}
+			o.Val = StructV{Fields: []Value{sv, c64(pos.C + 1)}}
+			f.env[x] = TupleV{True(), pos, ZExt(32, b)}
+			break
+		}
 		o := e.mutObj(st, it.Obj)
 		tt := x.Type().(*types.Tuple)
 		if len(o.Ents) == 0 {
@@ -2586,10 +2627,16 @@ func (e *Engine) intrinsic(st *State, f *Frame, x *ssa.Call, fn *ssa.Function, n
 	case "sync/atomic.LoadInt32":
 		p := args[0].(PtrV)
 		e.require(st, BoolC(p.Obj != 0), "nil", "atomic load through nil", x)
-		return e.load(st, p, nil), true
+		e.inAtomic = true
+		v := e.load(st, p, nil)
+		e.inAtomic = false
+		return v, true
 	case "sync/atomic.StoreInt32":
 		p := args[0].(PtrV)
 		e.require(st, BoolC(p.Obj != 0), "nil", "atomic store through nil", x)
+		if st.sharing && st.shared[p.Obj] && st.locks == 0 {
+			e.noteSharedAccess(st, p, true, true)
+		}
 		e.inAtomic = true
 		e.store(st, p, args[1])
 		e.inAtomic = false
